@@ -22,7 +22,13 @@ impl From<SFloatErr> for LabelError { fn from(_: SFloatErr) -> Self { LabelError
 impl From<SLabelErr> for LabelError { fn from(_: SLabelErr) -> Self { LabelError::LengthMismatch } }
 
 /// a token (or a whole line: then `toks` lists its tokens, at most 3, the third being "the rest")
-pub struct SStr { empty: bool, float: Option<f64>, label: Option<SLabel>, toks: Vec<SStr> }
+/// `text` is the line as written: only its length, byte-range slicing and to_string are taken from it (with std's own
+/// char-boundary rules), never its tokenisation
+pub struct SStr { empty: bool, float: Option<f64>, label: Option<SLabel>, toks: Vec<SStr>, text: &'static str }
+impl std::ops::Index<std::ops::RangeTo<usize>> for SStr {
+    type Output = str;
+    fn index(&self, r: std::ops::RangeTo<usize>) -> &str { &self.text[r] }
+}
 pub struct SSplit<'a> { s: &'a SStr, pos: usize }
 impl<'a> Iterator for SSplit<'a> {
     type Item = &'a SStr;
@@ -40,8 +46,10 @@ impl SParse for SLabel {
     fn from_tok(t: &SStr) -> Result<SLabel, SLabelErr> { match t.label { Some(x) => Ok(x), None => Err(SLabelErr) } }
 }
 impl SStr {
-    fn tok(empty: bool, float: Option<f64>, label: Option<SLabel>) -> SStr { SStr { empty, float, label, toks: Vec::new() } }
-    fn line(toks: Vec<SStr>) -> SStr { SStr { empty: false, float: None, label: None, toks } }
+    fn tok(empty: bool, float: Option<f64>, label: Option<SLabel>) -> SStr { SStr { empty, float, label, toks: Vec::new(), text: "" } }
+    fn line(toks: Vec<SStr>) -> SStr { SStr { empty: false, float: None, label: None, toks, text: "" } }
+    fn line_with_text(toks: Vec<SStr>, text: &'static str) -> SStr { SStr { empty: false, float: None, label: None, toks, text } }
+    fn len(&self) -> usize { self.text.len() }
     fn splitn(&self, n: usize, _sep: char) -> SSplit<'_> { assert!(n == 3); SSplit { s: self, pos: 0 } }
     fn is_empty(&self) -> bool { self.empty }
     fn parse<T: SParse>(&self) -> Result<T, T::Err> { T::from_tok(self) }
@@ -120,7 +128,10 @@ fn body_one_token_blank_and_missing_label() {
     let r0 = SLabels::load_from_strings(48000, 240, &none);
     match &r0 { Ok(l) => assert!(l.labels.is_empty() && l.times.is_empty()), Err(_) => assert!(false) }
     std::mem::forget(r0);
-    let lines2 = [SLine(SStr::line(vec![lab(3)])), SLine(SStr::line(vec![num(0.0), num(5.0)]))];
+    // the offending line is 3 ASCII bytes followed by 17 two-byte characters: whatever the error value echoes of it must
+    // not be cut inside a character
+    let lines2 = [SLine(SStr::line(vec![lab(3)])), SLine(SStr::line_with_text(vec![num(0.0), num(5.0)],
+        "0 5\u{e9}\u{e9}\u{e9}\u{e9}\u{e9}\u{e9}\u{e9}\u{e9}\u{e9}\u{e9}\u{e9}\u{e9}\u{e9}\u{e9}\u{e9}\u{e9}\u{e9}"))];
     let r2 = SLabels::load_from_strings(48000, 240, &lines2);
     assert!(matches!(r2, Err(LabelError::MissingLabel(_))));
     kani::cover!(true);
